@@ -383,3 +383,34 @@ Theorem C12w_n64_infinite_width :
     [0; 9218868437227405312; 0; 0; 1; 9221120237041090560]%Z.
 Proof. exact ex_n64_infinite_width. Qed.
 Print Assumptions C12w_n64_infinite_width.
+
+(* The executable integer instance (Run/RunWidths.v: m_full_int) reports Panic unless every edge the
+   counting loop and the builder compute stays inside the element type (debug profile: overflow checks):
+   what the boolean placement_ok establishes, for every index up to the advertised number of bins. *)
+Lemma placement_ok_from_sound : forall t mn w k iz,
+  placement_ok_from t mn w iz k = true ->
+  forall j, (j < k)%nat ->
+    Interp.in_range t ((iz + Z.of_nat j) * w)%Z = true /\
+    Interp.in_range t (mn + (iz + Z.of_nat j) * w)%Z = true.
+Proof.
+  intros t mn w k. induction k as [|k IH]; intros iz H j Hj; [lia|].
+  cbn [placement_ok_from] in H.
+  apply Bool.andb_true_iff in H. destruct H as [H Hrest].
+  apply Bool.andb_true_iff in H. destruct H as [H1 H2].
+  destruct j as [|j].
+  - cbn [Z.of_nat]. rewrite Z.add_0_r. split; assumption.
+  - specialize (IH (iz + 1)%Z Hrest j ltac:(lia)).
+    replace (iz + Z.of_nat (S j))%Z with (iz + 1 + Z.of_nat j)%Z by lia. exact IH.
+Qed.
+Print Assumptions placement_ok_from_sound.
+
+Theorem C12w_placement_ok : forall t mn w nb,
+  placement_ok t mn w nb = true ->
+  forall i, (i <= nb)%nat ->
+    Interp.in_range t (Z.of_nat i * w)%Z = true /\ Interp.in_range t (mn + Z.of_nat i * w)%Z = true.
+Proof.
+  intros t mn w nb H i Hi. unfold placement_ok in H.
+  destruct (placement_ok_from_sound t mn w (S nb) 0%Z H i ltac:(lia)) as [A B].
+  rewrite Z.add_0_l in A, B. split; assumption.
+Qed.
+Print Assumptions C12w_placement_ok.
